@@ -210,9 +210,38 @@ def corr_family(pid, fam, seed, count, tag, extra_args=()):
                         res["known_hits"].setdefault(k["id"], {"entry": k, "count": 0, "first": d})
                         res["known_hits"][k["id"]]["count"] += 1
                     continue
+            if timing_sensitive(pa, pb) and d["case"] is not None and tag != "rerun":
+                # the disagreement rests on an observation that scheduling noise can produce once in a while (DESIGN §0,
+                # robustness): it counts only if the SAME case shows it again in two fresh executions
+                if not all(rerun_shows(pid, fam, seed, count, d["case"], r) for _ in range(2)):
+                    res["timing_noise"] = res.get("timing_noise", 0) + 1
+                    continue
+                d["confirmed_by_rerun"] = 2
             if len(res["disagreements"]) < 20:
                 res["disagreements"].append(d)
     return res
+
+
+# model notes that depend on how the OS scheduled the harness (never on the code alone)
+TIMING_NOTES = ("the idle wait completed without the stream ever returning Pending",)
+
+
+def timing_sensitive(pa, pb):
+    """True if every differing segment of the model's answer consists only of timing-sensitive notes."""
+    diff = [(x, y) for x, y in zip(pb.split(" ; "), pa.split(" ; ")) if x != y]
+    if not diff or len(pb.split(" ; ")) != len(pa.split(" ; ")):
+        return False
+    for x, _ in diff:
+        notes = [n for n in x.split(" / ") if n and n != "-"]
+        if not notes or not all(any(t in n for t in TIMING_NOTES) for n in notes):
+            return False
+    return True
+
+
+def rerun_shows(pid, fam, seed, count, case, request):
+    """Re-executes ONE case (same PRNG state) and says whether its request line disagrees again."""
+    res = corr_family(pid, fam, seed, count, "rerun", extra_args=(str(case),))
+    return any(x.get("case") == case for x in res["disagreements"]) or bool(res["impl_failures"])
 
 
 def write_replay(pid, payload):
@@ -347,6 +376,7 @@ def main(argv):
                           "distinct_nontrivial": r["meta"].get("distinct_nontrivial", 0),
                           "histogram": r["meta"].get("histogram", {})} for r in corr],
             "known_findings_hit": {k: v["count"] for k, v in seen_known.items()},
+            "timing_noise_discarded": sum(r.get("timing_noise", 0) for r in corr),
         },
         "assumptions": TRUSTED_BASE + cfg.get("modelled_not_verified", []),
         "wall_s": round(time.time() - t0, 2),
